@@ -127,9 +127,9 @@ def jobs_for(pid, rep):
                 ops.append({"op": "remove", "q": g.atom(), "m": concretise.NONE})
             add(ops, i % 2, {"io": True, "prefill": True, "prefill_points": prefill_points(size, g)})
     elif pid == "C15":
-        nh = 400 if thorough else 60
+        nh = 1200 if thorough else 240
         for i in range(nh):
-            g = gen.Gen(rng.randrange(1 << 30), focus={"insert": 4, "remove": 4, "update": 4, "update_all": 2, "drop": 2, "reindex": 2, "fail": 0.3, "bad": 0.3}, handles=0.2)
+            g = gen.Gen(rng.randrange(1 << 30), focus={"insert": 5, "remove": 5, "update": 4, "update_all": 1, "drop": 2, "reindex": 1, "fail": 0.3, "bad": 0.3, "repeat": 0.6}, handles=0.2)
             add(g.history(g.r.choice([10, 18, 28]), p_read=0.55), i % 2, {"io": True})
         # access modes
         for i in range(120 if thorough else 24):
